@@ -25,6 +25,7 @@ mcvars == <<vars, nextVal, ops>>
 ConfSeq == { [bufcap |-> 2, itemsize |-> 1, flavor |-> "sync", coster |-> "const2", validator |-> "veto_odd_next"] }
 ConfConc == { [bufcap |-> b, itemsize |-> 0, flavor |-> "sync", coster |-> "const2", validator |-> "always"] : b \in {1, 2} }
 ConfAsync == { [bufcap |-> b, itemsize |-> 0, flavor |-> "async", coster |-> "const2", validator |-> "always"] : b \in {1, 2} }
+ConfTtl == { [bufcap |-> 2, itemsize |-> 0, flavor |-> "sync", coster |-> "const2", validator |-> "always"] }
 KeysColl == { <<1, 1>>, <<1, 2>>, <<2, 0>> }
 KeysTwo == { <<1, 1>>, <<2, 2>> }
 KeysOne == { <<1, 1>> }
